@@ -18,6 +18,7 @@ from exabgp.bgp.message.update.nlri.nlri import NLRI
 from exabgp.bgp.message.update.nlri.vpls import VPLS
 from exabgp.bgp.neighbor import NeighborTemplate
 from exabgp.environment import getenv
+from exabgp.reactor.api.command.limit import SELECTOR_KEYS, match_neighbors
 
 if TYPE_CHECKING:
     from exabgp.reactor.api import API
@@ -131,6 +132,37 @@ def show_adj_rib(self: 'API', reactor: 'Reactor', service: str, peers: list[str]
     return True
 
 
+def _restrict_peers(peers: list[str], words: list[str]) -> list[str] | None:
+    """The peers a flush/clear command is for.
+
+    words is what follows the direction: nothing (every peer handed over by the dispatcher),
+    or '[neighbor|peer] <ip> [<selector key> <value>]...' as for 'show adj-rib' and the
+    documented 'clear adj-rib out neighbor <ip>'.  Returns None when the words can not be
+    read as a neighbor filter, or name none of the peers: the command is then refused.
+    """
+    # the encoding keyword every command may end with
+    if words and words[-1] in ('json', 'text'):
+        words = words[:-1]
+    if not words:
+        return peers
+
+    if words[0] in ('neighbor', 'peer'):
+        words = words[1:]
+    if not words:
+        return None
+
+    definition = [f'neighbor {words[0]}']
+    pairs = words[1:]
+    if len(pairs) % 2:
+        return None
+    for key, value in zip(pairs[0::2], pairs[1::2]):
+        if key not in SELECTOR_KEYS:
+            return None
+        definition.append(f'{key} {value}')
+
+    return list(match_neighbors(peers, [definition])) or None
+
+
 def flush_adj_rib_out(
     self: 'API', reactor: 'Reactor', service: str, peers: list[str], command: str, use_json: bool
 ) -> bool:
@@ -144,12 +176,18 @@ def flush_adj_rib_out(
         await reactor.processes.answer_done(service)
 
     try:
-        # peers list already parsed by dispatcher
-        if not peers:
+        # peers list already parsed by dispatcher, command is what follows 'rib flush': 'out [<neighbor>]'
+        words = command.split()
+        if not words or words[0] != 'out':
+            self.log_failure(f'only the adj-rib out can be flushed : {command}', 'warning')
+            reactor.processes.answer_error_sync(service)
+            return False
+        selected = _restrict_peers(peers, words[1:]) if peers else None
+        if not selected:
             self.log_failure(f'no neighbor matching the command : {command}', 'warning')
             reactor.processes.answer_error_sync(service)
             return False
-        reactor.asynchronous.schedule(service, command, callback(self, peers))
+        reactor.asynchronous.schedule(service, command, callback(self, selected))
         return True
     except ValueError:
         self.log_failure('issue parsing the command')
@@ -177,14 +215,19 @@ def clear_adj_rib(
         await reactor.processes.answer_done(service)
 
     try:
-        # peers list already parsed by dispatcher
-        if not peers:
+        # peers list already parsed by dispatcher, command is what follows 'rib clear': 'in|out [<neighbor>]'
+        words = command.split()
+        if not words or words[0] not in ('in', 'out'):
+            self.log_failure(f'the adj-rib to clear is in or out : {command}', 'warning')
+            reactor.processes.answer_error_sync(service)
+            return False
+        direction = words[0]
+        selected = _restrict_peers(peers, words[1:]) if peers else None
+        if not selected:
             self.log_failure(f'no neighbor matching the command : {command}', 'warning')
             reactor.processes.answer_error_sync(service)
             return False
-        words = command.split()
-        direction = 'in' if 'in' in words else 'out'
-        reactor.asynchronous.schedule(service, command, callback(self, peers, direction))
+        reactor.asynchronous.schedule(service, command, callback(self, selected, direction))
         return True
     except ValueError:
         self.log_failure('issue parsing the command')
